@@ -27,8 +27,12 @@ def solve_fixed_grid(
         state0 = solver.init(t=t0, u=u, damp=damp)
         s_new, result = flow.scan(body_fn, init=state0, xs=np.diff(grid))
 
+        # The final step ends at the final grid point (no overstepping).
+        _, interp = solver.interpolate_fwd_at_t1(
+            t=grid[-1], interp_from=s_new, interp_to=s_new
+        )
         return solver.userfriendly_output(
-            solution0=state0, solution=result, solution1=s_new
+            solution0=state0, solution=result, solution1=interp.step_from
         )
 
     return solve
